@@ -13,10 +13,18 @@ VARIABLES x, st
 Fns == Helpers \cup {"Bswap"}
 
 Bg(k, n) == Mat([i \in 1..n |-> IF k = 0 THEN 0 ELSE IF k = 1 THEN 255 ELSE (i * 53 + 17) % 256])
+\* values with internal structure a composed implementation could special-case: the two halves equal (x = h.h), mirrored
+\* (x = h.Rev(h), a byte palindrome), one 16-bit unit repeated
+Part(n) == { [Bg(k, n) EXCEPT ![p] = b] : k \in 0..2, p \in 1..n, b \in {0, 1, 18, 127, 128, 255} }
+Structured ==
+  IF Size < 4 THEN {}
+  ELSE { h \o h : h \in Part(Size \div 2) } \cup { h \o Rev(h) : h \in Part(Size \div 2) }
+       \cup (IF Size = 8 THEN { u \o u \o u \o u : u \in Part(2) } \cup { h \o Rev(h) \o h \o Rev(h) : h \in Part(2) } ELSE {})
 Vals ==
   IF Size = 2 /\ Full16 THEN { <<a, b>> : a \in 0..255, b \in 0..255 }
   ELSE { [Bg(k, Size) EXCEPT ![p] = b] : k \in 0..2, p \in 1..Size, b \in 0..255 }
        \cup { Mat([i \in 1..Size |-> IF i = (t \div 8) + 1 THEN P2[8 - (t % 8)] ELSE 0]) : t \in 0..(8 * Size - 1) }
+       \cup Structured
 
 Init == x \in Vals /\ st = [fn |-> "start"]
 Next == \E fn \in Fns :
